@@ -178,7 +178,8 @@ def run_cli(case, agg):
         open(inp, "wb").write(data)
         rc, so, se = impl.cli(["image", "update", "--input-file", inp, "--storage-output-file", sto, "--dfu-partition-output-file", dfu,
                                "--update-candidate-info-address", fmt(case["info"]), "--dfu-partition-address", fmt(case["part"]),
-                               "--dfu-max-caches", str(case["caches"])], d)
+                               # the count as a plain decimal, zero-padded (08), with a sign (+8) or with blanks around it
+                               "--dfu-max-caches", {"dec": "%d", "hex": "%02d", "HEX": "+%d", "oct": " %d "}[case["style"]] % case["caches"]], d)
         if rc != 0:
             agg.viol("C16:cli/failed", f"{case}: rc={rc} {se[-300:]}")
             return
